@@ -165,6 +165,9 @@ Cancel(a) ==
 Step(a) == \/ WaitLoad(a) \/ WaitPush(a) \/ WaitDec(a) \/ FireStore(a) \/ Wakeup(a) \/ WakeUnpark(a)
            \/ WakeSetUnparked(a) \/ TakeRelease(a) \/ ParkEnter(a) \/ ParkReturn(a) \/ IsUnparked(a) \/ SetRelease(a)
 Internal(a) == NextOp(a) \/ GiveUp(a)
+\* labels at which an actor performs internal steps (no verification point): under the baton these
+\* complete before anybody else moves
+InternalPcs == {"next", "giveup"}
 Obs(a) == IF pc[a] = "sb.park.ret"
             THEN (CASE res[a] = "Ok" -> 0 [] res[a] = "Timeout" -> 1 [] OTHER -> 2) ELSE -1
 Finished(a) == pc[a] \in {"done", "dead"}
